@@ -235,6 +235,11 @@ func c08(r *core.Run) {
 				}
 				return core.StateSet(0).Add(s | bPub)
 			}
+			if c, ok := in.(ssa.CallInstruction); ok && !core.IsGo(c) {
+				if cal := c.Common().StaticCallee(); cal != nil && mayNotify[cal] && cal.Pkg == fn.Pkg {
+					return core.StateSet(0).Add(s | bLst) // the notification helper reads the list itself
+				}
+			}
 			if u, ok := in.(*ssa.UnOp); ok && u.Op == token.MUL && okLst {
 				if f, ok := core.FieldOf(u.X); ok && f == lstF {
 					return core.StateSet(0).Add(s | bLst)
@@ -359,6 +364,46 @@ func c08(r *core.Run) {
 						onlyPanic, why := edgeReachesOnlyPanic(blk, isPL)
 						r.Check(onlyPanic, "O3", fname, "apply-error-edge->panic-only", p.InstrPos(iff),
 							"every path from the apply-error edge ends in panic with no publish, listener or return", "a failed apply does not always panic before publishing: "+why)
+					}
+				}
+			}
+			// the test may sit in a helper that is handed the error and panics unless it is nil
+			if !tested && errVal != nil && errVal.Referrers() != nil {
+				for _, rf := range *errVal.Referrers() {
+					hc, ok := rf.(*ssa.Call)
+					if !ok {
+						continue
+					}
+					cal := hc.Common().StaticCallee()
+					if cal == nil || len(cal.Blocks) == 0 || cal.Pkg != fn.Pkg {
+						continue
+					}
+					pi := -1
+					for i, arg := range hc.Common().Args {
+						if arg == errVal {
+							pi = i
+						}
+					}
+					if pi < 0 || pi >= len(cal.Params) {
+						continue
+					}
+					for _, hb := range cal.Blocks {
+						iff, ok := hb.Instrs[len(hb.Instrs)-1].(*ssa.If)
+						if !ok {
+							continue
+						}
+						ci := core.Cond(iff.Cond)
+						if ci.Kind != "nilcmp" || ci.X != ssa.Value(cal.Params[pi]) {
+							continue
+						}
+						tested = true
+						errSucc := 0
+						if (ci.Op == token.EQL) != ci.Negate {
+							errSucc = 1
+						}
+						onlyPanic, why := edgeReachesOnlyPanic(hb.Succs[errSucc], func(ssa.Instruction) bool { return false })
+						r.Check(onlyPanic, "O3", fname, "apply-error-edge->panic-only", p.InstrPos(hc),
+							"the error is handed to a helper whose non-nil edge ends in panic", "a failed apply does not always panic before publishing: "+why)
 					}
 				}
 			}
@@ -655,10 +700,18 @@ func c08EventFields(r *core.Run, m *evMethod) {
 	}
 	// the Event allocation passed to listeners (directly or through a helper)
 	var ev *ssa.Alloc
+	var byValue ssa.CallInstruction
 	for _, c := range m.L {
 		for _, arg := range c.Common().Args {
 			if a, ok := arg.(*ssa.Alloc); ok && core.TypeName(a.Type()) == "Event" {
 				ev = a
+			}
+			// the literal handed to a notification helper by value
+			if u, ok := arg.(*ssa.UnOp); ok && u.Op == token.MUL {
+				if a, ok := u.X.(*ssa.Alloc); ok && core.TypeName(a.Type()) == "Event" {
+					ev = a
+					byValue = c
+				}
 			}
 		}
 	}
@@ -713,6 +766,21 @@ func c08EventFields(r *core.Run, m *evMethod) {
 	}
 	r.Check(name != "" && suffix == "."+name, "O5", fname, "Event.Name==subject-suffix", p.Pos(fn.Pos()), "Event.Name "+name+" equals the published subject's last token", fmt.Sprintf("Event.Name %q does not equal the published subject suffix %q", name, suffix))
 	recv := fn.Params[0]
+	if _, ok := stores["Resource"]; !ok && byValue != nil {
+		// the helper that got the event by value fills in the resource: its own receiver, which
+		// is the emitting resource at this call
+		if cal := byValue.Common().StaticCallee(); cal != nil && len(cal.Params) > 0 && len(byValue.Common().Args) > 0 && core.Strip(byValue.Common().Args[0]) == ssa.Value(recv) {
+			for _, b := range cal.Blocks {
+				for _, in := range b.Instrs {
+					if st, ok := in.(*ssa.Store); ok {
+						if f, ok := core.FieldOf(st.Addr); ok && f.Struct == "Event" && f.Name == "Resource" && core.Strip(st.Val) == ssa.Value(cal.Params[0]) && unconditionalOrGuardedByListeners(st) {
+							stores["Resource"] = recv
+						}
+					}
+				}
+			}
+		}
+	}
 	if v, ok := stores["Resource"]; ok {
 		r.Check(core.Strip(v) == ssa.Value(recv), "O5", fname, "Event.Resource==receiver", p.Pos(fn.Pos()), "listeners get the emitting resource", "Event.Resource is not the emitting resource")
 	} else {
@@ -919,4 +987,21 @@ func c08ListenersWired(r *core.Run, rule string, root []*ssa.Function) {
 		}
 		r.Check(good, rule, core.FuncName(ac.Fn), "resource-with-routed-handler-gets-its-listeners", p.InstrPos(st), "handler and listeners are stored from the same Match", "a resource is constructed with a routed handler but without that match's listeners ("+why+"): events emitted on it run the apply handler and are published, but no listener is called")
 	}
+}
+
+// unconditionalOrGuardedByListeners: the store is executed on every path of
+// its function that goes on to call a listener (it dominates every dynamic
+// call of the function).
+func unconditionalOrGuardedByListeners(st *ssa.Store) bool {
+	fn := st.Parent()
+	n := 0
+	for _, c := range core.Calls(fn) {
+		if core.IsDynamic(c) && !c.Common().IsInvoke() {
+			n++
+			if !core.Dominates(st, c) {
+				return false
+			}
+		}
+	}
+	return n > 0
 }
